@@ -10,6 +10,12 @@ seed), each driven by its own virtual tuner — differently for the two twins. O
 re-run under restricted perturbation classes to attribute it (global numpy / python random / decoys /
 independent of all three).
 
+Engine S (in process, shared argument objects): direct RandomSearcher / GridSearcher instances (behind a small
+scheduler-API adapter) and FIFO / Hyperband / synchronous Hyperband / PBT / REA schedulers are built twice from the
+SAME argument objects (config_space dict, points_to_evaluate list, search_options dict incl. the
+restrict_configurations list), driven alternately, and compared call by call with each other and with a solo run
+built from private copies; afterwards the caller's objects must be deep-equal to a snapshot taken before.
+
 Engine B (fresh processes): one scenario is executed by ``python -m stv.props.c11 --child <json>`` children
 started with ``subprocess.run(timeout=...)`` under PYTHONHASHSEED 0, 1 and 'random', each with its own
 global-RNG preamble and its own perturbation stream between scheduler calls. Every child prints the full
@@ -42,14 +48,24 @@ RULE = (
     "lograndint, qrandint, qlograndint, choice, ordinal equal/nn, logordinal, finrange / logfinrange with and without "
     "cast_int; one kind forced per case in turn) x metric table x 1-8 workers x arrival policy x failure plan x perturbation stream (numpy global, python global, decoy "
     "schedulers; different before each twin); distinct = digest of (kind, sequence of (event type, start/resume/none, "
-    "decision)); non-trivial = at least 30 lock-step events all compared. engine B: case = scenario (virtual-tuner GP "
+    "decision)); non-trivial = at least 30 lock-step events all compared. engine S: case = target (searcher_random, "
+    "searcher_grid, fifo_random, fifo_grid, hb_promotion, hb_stopping, sync_hb, pbt, rea) x variant (restrict_configurations "
+    "/ allow_duplicates / plain) x points_to_evaluate (None / [] / sampled) x history as in engine A; non-trivial = at least "
+    "20 events, twins equal to each other and to the solo run. engine B: case = scenario (virtual-tuner GP "
     "searcher history / batch of model-free histories / simulated Tuner experiment) x seed, run in 3 fresh processes "
     "(PYTHONHASHSEED 0, 1, random; different global-RNG preambles and perturbation streams); distinct = trace digest; "
     "non-trivial = all children produced a trace with at least 10 events / result rows."
 )
 ASSUMPTIONS = [
-    "twins receive equal arguments by value (each instance gets its own freshly built config space / option dicts); "
-    "sharing of mutable argument objects between instances is not explored",
+    "engines A and B: twins receive equal arguments by value (each instance gets its own freshly built config space / "
+    "option dicts). engine S: two instances are built from the SAME config_space dict, points_to_evaluate list and "
+    "search_options dict (with the restrict_configurations list inside) and called alternately; they must answer like "
+    "a solo instance built from private copies, and the caller's objects must be unchanged afterwards (a num_samples "
+    "dict and PBT with restrict_configurations only through explicit reproducer specs: candidates C11-K1/K2)",
+    "configuration spaces draw from all 17 domain kinds; quantized domains use a q that divides both bounds and exactly "
+    "representable values, ordinal nn / logordinal have >= 2 categories, integer finite ranges have distinct members "
+    "(so the open C07 / C06 findings about such domains do not interfere); dehb and fifo_grid never call Domain.sample "
+    "and are not counted in domain_kind_in_twin_spaces",
     "PBT (and every FIFO-based scheduler) puts elapsed time of its time keeper into suggestions: the twins get two "
     "SimulatedTimeKeeper objects advanced in lock-step by the harness (the documented way to make time reproducible); "
     "wall-clock time is outside the property",
